@@ -12,6 +12,7 @@ package csr
 //vsym:replay same-harness
 
 import (
+	"bytes"
 	"fmt"
 	"strconv"
 	"strings"
@@ -195,6 +196,24 @@ func refLower(s string) string {
 
 // S_summaries: the engine's summaries of strings.* over symbolic bytes agree
 // with plain-loop reference implementations for every byte value (ASCII bound).
+func refCompare(a, b string) int {
+	for i := 0; i < len(a) && i < len(b); i++ {
+		if a[i] < b[i] {
+			return -1
+		}
+		if a[i] > b[i] {
+			return 1
+		}
+	}
+	if len(a) < len(b) {
+		return -1
+	}
+	if len(a) > len(b) {
+		return 1
+	}
+	return 0
+}
+
 func S_summaries() {
 	n := vChoose(4, "len")
 	s := vNondetString("s", n)
@@ -215,6 +234,11 @@ func S_summaries() {
 	if n > 0 {
 		vAssert(strings.IndexByte(s, s[0]) == 0, "selftest.strings.IndexByte")
 	}
+	// three-way comparison against a plain loop
+	t := vNondetString("t", vChoose(3, "len-t"))
+	vAssert(strings.Compare(s, t) == refCompare(s, t), "selftest.strings.Compare")
+	vAssert(bytes.Compare([]byte(s), []byte(t)) == refCompare(s, t), "selftest.bytes.Compare")
+	vAssert((s < t) == (refCompare(s, t) < 0), "selftest.string-less")
 	vAssert(vEqString(fmt.Sprintf("%s=%s", s, s), s+"="+s), "selftest.fmt.Sprintf-%s")
 	h := fmt.Sprintf("%x", s)
 	vAssert(len(h) == 2*n, "selftest.fmt.Sprintf-%x-length")
